@@ -92,8 +92,11 @@ def stdlib_table():
             "itertools": {n: getattr(itertools, n) for n in ("count", "repeat", "cycle", "starmap", "accumulate", "groupby", "islice", "product", "permutations", "combinations",
                                                              "combinations_with_replacement", "zip_longest", "takewhile", "dropwhile", "tee", "compress", "filterfalse")},
             "functools": {"reduce": functools.reduce, "partial": functools.partial, "lru_cache": (lambda *a, **k: (a[0] if a and callable(a[0]) else (lambda f: f))), "cache": (lambda f: f), "wraps": (lambda f: (lambda g: g))},
-            "collections": {"defaultdict": m_defaultdict, "deque": m_deque, "Counter": m_counter, "OrderedDict": dict},
-            "operator": {n: getattr(operator, n) for n in ("itemgetter", "attrgetter", "or_", "and_", "xor", "not_", "add", "sub", "mul", "eq", "ne", "lt", "le", "gt", "ge", "contains")},
+            "collections": {"defaultdict": m_defaultdict, "deque": m_deque, "Counter": m_counter, "OrderedDict": dict, "namedtuple": __import__("cgstatic.userclass", fromlist=["x"]).namedtuple_factory,
+                            "ChainMap": (lambda *maps: {k: v for m_ in reversed(maps) for k, v in m_.items()})},
+            "typing": {n: object for n in ("Any", "Optional", "Iterable", "Iterator", "Sequence", "Mapping", "Dict", "List", "Set", "Tuple", "Callable", "Union", "FrozenSet", "Generator", "Hashable", "ClassVar", "Final")},
+            "dataclasses": {"field": __import__("cgstatic.userclass", fromlist=["x"]).dataclass_field, "dataclass": (lambda *a, **k: (a[0] if a else (lambda c: c)))},
+            "operator": {n: getattr(operator, n) for n in ("itemgetter", "attrgetter", "methodcaller", "or_", "and_", "xor", "not_", "add", "sub", "mul", "eq", "ne", "lt", "le", "gt", "ge", "contains", "getitem", "truth", "is_", "is_not", "neg")},
             "queue": {"Queue": MQueue},
             "weakref": {"WeakKeyDictionary": dict, "WeakValueDictionary": dict, "WeakSet": set},
             "copy": {"copy": __import__("copy").copy, "deepcopy": __import__("copy").deepcopy},
@@ -248,8 +251,7 @@ class RepoInstance(Model):
         key = (rel, f"{cls}.{name}")
         if key not in pkg.repo.funcs:
             raise AttributeError(name)
-        bi = BlockInterp(dict(pkg.env(rel)), max_steps=pkg.max_steps)
-        clo = bi.make_closure(pkg.repo.funcs[key].node)
+        clo = pkg.method_closure(rel, f"{cls}.{name}")
         bound = bind_with_decorators(pkg.repo.funcs[key].node, clo, self)
         if getattr(bound, "_is_property", False):
             return bound()
@@ -302,6 +304,8 @@ class Package:
         self.overrides = overrides or {}
         self.envs = {}
         self.voc = type_vocabulary(repo)
+        self._method_closures = {}
+        self._init_attrs = {}
         self.nx = MNx()
         self.generic_flop = RefBlackBox("ff", ["clk", "d"], ["q"])
         self.cg = LazyNS(self._cg_attr)
@@ -311,14 +315,46 @@ class Package:
             k._pkg_fallback = self
             k._repo_class = name
 
+    def initial_private_attr(self, obj, name):
+        """(found, value): the value the repository's own `__init__` gives a private attribute the reference model does not
+        have (a cache, a flag added by a refactoring) - obtained by evaluating that `__init__` on a scratch instance."""
+        cls = getattr(type(obj), "_repo_class", None)
+        if cls is None or ("circuit.py", f"{cls}.__init__") not in self.repo.funcs:
+            return False, None
+        import copy as _copy
+
+        if cls not in self._init_attrs:
+            try:
+                inst = repo_class(self, "circuit.py", cls)()
+                d = object.__getattribute__(inst, "__dict__")
+                self._init_attrs[cls] = {k: v for k, v in d.items() if not k.startswith("_ri_")}
+            except (ModelRaise, Unsupported):
+                self._init_attrs[cls] = {}
+        if name not in self._init_attrs[cls]:
+            return False, None
+        try:
+            return True, _copy.deepcopy(self._init_attrs[cls][name])
+        except Exception:
+            return False, None
+
+    def method_closure(self, rel, qual):
+        """One function object per method of a class for the lifetime of this Package - as in CPython, where a method's
+        default values belong to the function, not to the instance or the call (a mutable default is shared by all)."""
+        key = (rel, qual)
+        if key not in self._method_closures:
+            env = self.env(rel)
+            bi = BlockInterp(env, max_steps=self.max_steps)
+            bi.me.env = env
+            self._method_closures[key] = bi.make_closure(self.repo.func(rel, qual).node)
+        return self._method_closures[key]
+
     def bound_repo_method(self, obj, name):
         """A method that circuit.py's class defines although the reference model lacks it, bound to the model object."""
         cls = getattr(type(obj), "_repo_class", None)
         if cls is None or ("circuit.py", f"{cls}.{name}") not in self.repo.funcs:
             return None
         fi = self.repo.funcs[("circuit.py", f"{cls}.{name}")]
-        bi = BlockInterp(dict(self.env("circuit.py")), max_steps=self.max_steps)
-        clo = bi.make_closure(fi.node)
+        clo = self.method_closure("circuit.py", f"{cls}.{name}")
         bound = bind_with_decorators(fi.node, clo, obj)
         return bound() if getattr(bound, "_is_property", False) else bound
 
@@ -384,7 +420,24 @@ class Package:
             if isinstance(st, ast.FunctionDef):
                 key = (rel, st.name)
                 env[st.name] = self.overrides[key] if key in self.overrides else bi.make_closure(st)
+        # classes the module defines for its own use (helper objects, NamedTuples, dataclasses); Circuit / BlackBox are
+        # bound above, classes over library bases (lark's Transformer) have their own drivers
+        from .userclass import build_class
+
+        for st in tree.body:
+            if isinstance(st, ast.ClassDef) and st.name not in env:
+                try:
+                    env[st.name] = build_class(st, bi)
+                except Unsupported:
+                    pass
         bind_module_constants(tree, env)
+        # a class may use module constants as defaults / class attributes and vice versa: second pass for late ones
+        for st in tree.body:
+            if isinstance(st, ast.ClassDef) and st.name not in env:
+                try:
+                    env[st.name] = build_class(st, bi)
+                except Unsupported:
+                    pass
         self._bi = bi
         return env
 
@@ -437,9 +490,7 @@ class Package:
     def call_method(self, cls_rel, qual, self_obj, *args, **kwargs):
         """Evaluate the body of a repository *method* with `self` bound to a model object."""
         fi = self.repo.func(cls_rel, qual)
-        env = dict(self.env(cls_rel))
-        bi = BlockInterp(env, max_steps=self.max_steps)
-        clo = bi.make_closure(fi.node)
+        clo = self.method_closure(cls_rel, qual)
         try:
             return ("return", clo(self_obj, *args, **kwargs))
         except ModelRaise as e:
